@@ -57,7 +57,7 @@ def innerKeys (ds : List KtDecl) : List (List Str) :=
 
 /-- **clauses 2 + 4 for the declarations of a source enum**: `inners` are the helper data classes of
 the struct variants, which come first -/
-theorem enum_ok (E : Ext) (hU : E.U.AsciiCorrect) (cfg : Cfg) (targetOs : List Str) (c : Str) (r : Renames)
+theorem enum_ok (E : Ext) (hU : E.U.AsciiCorrect) (cfg : Cfg) (hcU : cfg.U.AsciiCorrect) (targetOs : List Str) (c : Str) (r : Renames)
     (attrs : List Attr) (ident : Str) (gens : List GenericParam) (vs : List Variant) (e : RustEnum)
     (ds : List KtDecl) (acronyms : List Str)
     (hparse : parseEnum E targetOs attrs ident gens vs = .ok (.enum e))
@@ -69,7 +69,7 @@ theorem enum_ok (E : Ext) (hU : E.U.AsciiCorrect) (cfg : Cfg) (targetOs : List S
   refine enum_clauses E hU .kotlin cfg targetOs c r attrs ident gens vs e acronyms _ _ hparse
     (by simp [C01.enumKeys, hi, innerKeys]) ?_
   intro hs hk
-  exact C02.C02_backend .kotlin E acronyms _ hs hk cfg ds hd
+  exact C02.C02_backend .kotlin E hU acronyms _ hs hk cfg ds hcU hd
 
 /-! ## finding the block of a source item -/
 
